@@ -21,6 +21,7 @@ type nodeDesc struct {
 	Kind string `json:"kind"` // "pval" (parameter.Value[int]), "vnode" (nodes.ValueNode[int]) or a struct kind
 	Salt int    `json:"salt,omitempty"`
 	Init int    `json:"init,omitempty"`
+	Fail bool   `json:"fail,omitempty"` // struct kinds: Process() returns an error when its hash is divisible by 3
 }
 type opDesc struct {
 	Op   string `json:"op"` // set | connect | disconnect | read
@@ -109,6 +110,9 @@ func (m *mirror) scratch(n int) int {
 			acc = (acc*31 + m.scratch(d)) % hmod
 		}
 	}
+	if m.desc[n].Fail && acc%3 == 0 {
+		return hmod + acc
+	}
 	return acc
 }
 
@@ -184,7 +188,7 @@ func buildLive(ns []nodeDesc) []*live {
 			p := nodes.Value(n.Init)
 			ls[i] = &live{node: p, ref: p.Out(), value: func() int { return p.Value() }, set: func(v int) error { p.Set(v); return nil }}
 		default:
-			ls[i] = newStruct(n.Kind, n.Salt)
+			ls[i] = newStruct(n.Kind, n.Salt, n.Fail)
 		}
 	}
 	return ls
@@ -253,7 +257,11 @@ func runHist(run *hx.Run, d histDesc) {
 			for _, f := range kinds[kindIndex(n.Kind)].Fields {
 				fs = append(fs, fmt.Sprintf("(%s%%string,%s)", hx.CoqString(f.Name), hx.CoqBool(f.Array)))
 			}
-			fmt.Fprintf(&b, "dS [%s] %d", strings.Join(fs, ";"), n.Salt)
+			c := "dS"
+			if n.Fail {
+				c = "dSF"
+			}
+			fmt.Fprintf(&b, "%s [%s] %d", c, strings.Join(fs, ";"), n.Salt)
 		}
 	}
 	b.WriteString("]\n  [")
@@ -343,6 +351,15 @@ func runHist(run *hx.Run, d histDesc) {
 	run.Count(fmt.Sprintf("nodes:%02d-%02d", len(d.Nodes)/5*5, len(d.Nodes)/5*5+4))
 	if rejected > 0 {
 		run.Count("with-rejected-op")
+	}
+	failedRuns := 0
+	for _, l := range ls {
+		if l.m != nil {
+			failedRuns += l.m.fails
+		}
+	}
+	if failedRuns > 0 {
+		run.Count("with-failed-Process")
 	}
 	maxArr := 0
 	for n := range mir.ports {
